@@ -35,10 +35,15 @@ Lone == {<<Op("w16", q * 65536, <<52, 18>>, 0), Op(k, q * 65536 - d, <<>>, 0), O
 \* the line marker of a byte is the source line that wrote it (or DL_DATA / DL_NO_CG), whatever its size
 Lines == {<<Op("w", a, <<90>>, line), Op("rd", a, <<>>, 0), Op("rd", a + 1, <<>>, 0), Op("wd", a + 1, <<>>, line), Op("rd", a + 1, <<>>, 0), Op("r8", a, <<>>, 0)>> :
             a \in {0, 65535, 131072}, line \in {-3, -2, 1, 32767, 32768, 65534, 65535, 65536, 131071, 1000000}}
+\* a loader narrows low/high to the code it found while data it loaded lies outside: the data still reads back
+Bounds == {<<Op("w8", d, <<52>>, 0), Op("w16", d + 1, <<120, 86>>, 0), Op("w32", c, <<1, 2, 3, 4>>, 0), Op("lo", c, <<>>, 0), Op("hi", c + 3, <<>>, 0),
+             Op("r8", d, <<>>, 0), Op("r16", d + 1, <<>>, 0), Op("r32", d, <<>>, 0), Op("rd", d, <<>>, 0), Op("r32", c, <<>>, 0),
+             Op("w8", d + 8, <<9>>, 0), Op("r8", d, <<>>, 0)>> :
+             d \in {512, 65534, 196608}, c \in {63488, 131072}}
 BoundScripts == {Touches(t, p) \o <<Op(wk, t[2] * 65536 - d, v, 0)>> \o
                    [i \in 1..4 |-> Op(rk, t[2] * 65536 - 4 + i, <<>>, 0)] \o <<Op("pmin", t[2] * 65536, <<>>, 0), Op("pmax", t[1] * 65536 + 5, <<>>, 0)>> :
                    t \in Trip, p \in Perm3, wk \in {"w16", "w32"}, d \in {1, 2, 3}, v \in {<<120, 86, 52, 18>>}, rk \in {"r8", "r16", "r32"}}
-                \cup Lone \cup Lines
+                \cup Lone \cup Lines \cup Bounds
 
 InitF == s = <<>> /\ n = 0
 NextF == FALSE /\ UNCHANGED <<s, n>>
